@@ -100,7 +100,7 @@ fn gen_subs(rng: &mut Rng) -> Vec<(Option<String>, Option<String>)> {
 
 pub fn run(ctx: &Ctx) -> i32 {
     let mut report = ctx.report("C18", "exploration");
-    report.rule = "read_card against the simulated terminal: systematically every UID length 0..20 x every number of leading zero bytes x zero runs in front of the last 7/8 bytes; UID shapes of real tag families (E0 04 / 04 / 88 04 / 08 heads, 04 E0 / E0 tails, lengths 4 / 7 / 8 / 10, zero-padded or not); randomly UID absent / 0..20 bytes (all zero, zero-prefixed, three zero bytes in front of the last 14 digits, nibble patterns, random), application list (tag 60) absent/empty/1-5 and 14-43 entries with and without application ids, systematically lists of 0..44 entries x 0..15 padding bytes (status informations of every length around the 254/255/256 APDU length switch and beyond), no TLV container at all, 0-5 (and 64 / 255 / 256 / 257 / 300 / 1000) intermediate statuses before the status information or the abort, all 256 abort codes; the terminal's own time-out (abort 6C, or a card at the last moment) arriving read_card_timeout seconds + 0.1/0.9/1.5 s after the request for read_card_timeout in {0,1,15,100,253,254,255}; in a quarter of the cases the link hiccups once during the first presentation (close / garbage / NACK / foreign or unexpected packet / reply followed by a close at a random packet; the re-sent request is answered properly); slow presentations (1-5 intermediate statuses and the card, each arriving read_card_timeout or read_card_timeout + 1 s after the previous packet, i.e. inside the per-packet wait but the whole exchange far beyond it); every card is presented twice in the same session, the second time with the irrelevant fields (track data, card type, ATS, SAK, tag-62 applications) changed. Oracle: reference classification of DESIGN 8/C18 (three-valued where the statement is silent); both presentations must give the same result. Non-trivial = every read; distinct by hash of the reported card data / abort code.".into();
+    report.rule = "read_card against the simulated terminal: systematically every UID length 0..20 x every number of leading zero bytes x zero runs in front of the last 7/8 bytes; UID shapes of real tag families (E0 04 / 04 / 88 04 / 08 heads, 04 E0 / E0 tails, lengths 4 / 7 / 8 / 10, zero-padded or not); randomly UID absent / 0..20 bytes (all zero, zero-prefixed, three zero bytes in front of the last 14 digits, nibble patterns, random), application list (tag 60) absent/empty/1-5 and 14-43 entries with and without application ids, systematically lists of 0..44 entries x 0..15 padding bytes (status informations of every length around the 254/255/256 APDU length switch and beyond), no TLV container at all, 0-5 (and 64 / 255 / 256 / 257 / 300 / 1000) intermediate statuses before the status information or the abort, all 256 abort codes; the terminal's own time-out (abort 6C, or a card at the last moment) arriving read_card_timeout seconds + 0.1/0.9/1.5 s after the request for read_card_timeout in {0,1,15,100,253,254,255}; in a quarter of the cases the link hiccups once during the first presentation (close / garbage / NACK / foreign or unexpected packet / reply followed by a close at a random packet; the re-sent request is answered properly); slow presentations (1-5 intermediate statuses and the card, each arriving read_card_timeout or read_card_timeout + 1 s after the previous packet, i.e. inside the per-packet wait but the whole exchange far beyond it); every card is presented twice in the same session, the second time with the irrelevant fields (track data, card type, ATS, SAK, tag-62 applications) changed; sequences of 3-5 different cards on one client, unreadable presentations (no card data, nothing to identify the card by) among them, each judged from its own status information. Oracle: reference classification of DESIGN 8/C18 (three-valued where the statement is silent); both presentations must give the same result. Non-trivial = every read; distinct by hash of the reported card data / abort code.".into();
     report.exhaustive = Some(false);
     report.assumptions = vec!["applications listed only under tag 62 are recorded, not judged (one of the repository's own captures is such a card)".into()];
     let schema = Arc::new(refcodec::zvt_schema());
@@ -150,6 +150,11 @@ pub fn run(ctx: &Ctx) -> i32 {
         }
         for _ in 0..n / threads {
             card_case(r, &mut rng, &schema);
+        }
+        // different cards one after the other on one client: every presentation is classified from its own status
+        // information only (unreadable presentations - no card data at all, nothing to identify it by - in between)
+        for _ in 0..n / threads / 3 {
+            sequence_case(r, &mut rng, &schema);
         }
         // size classes: application lists of 0..44 entries x padding of 0..15 bytes in an irrelevant field, so that the
         // status information sweeps over every length around the 254/255/256 switch of the APDU length (and beyond)
@@ -332,6 +337,57 @@ fn abort_case(r: &mut Report, schema: &Arc<refcodec::layout::Schema>, code: u8, 
 fn card_case(r: &mut Report, rng: &mut Rng, schema: &Arc<refcodec::layout::Schema>) {
     let card = random_card(rng);
     fixed_card_case(r, rng, schema, card);
+}
+
+fn sequence_case(r: &mut Report, rng: &mut Rng, schema: &Arc<refcodec::layout::Schema>) {
+    let n = 3 + rng.below(3) as usize;
+    let cards: Vec<CardData> = (0..n)
+        .map(|_| {
+            let mut c = random_card(rng);
+            match rng.below(5) {
+                0 => c.no_tlv = true,
+                1 => {
+                    c.uid = None;
+                    c.subs = vec![];
+                }
+                _ => {}
+            }
+            c
+        })
+        .collect();
+    let mut sc = Scenario::default();
+    sc.calls = cards.iter().map(|_| Call::ReadCard).collect();
+    for (i, c) in cards.iter().enumerate() {
+        sc.plan.push(2 + i, Cmd::ReadCard, ExPlan { pre: intermediates(rng.below(3) as usize), card: Some(c.clone()), ..ExPlan::default() });
+    }
+    let tr = run_scenario(&sc, schema);
+    r.count("sequences_of_different_cards", 1);
+    for (i, card) in cards.iter().enumerate() {
+        r.case(fnv(format!("seq {i} {card:?}").as_bytes()), true);
+        let accepted = reference(card);
+        let Some(ct) = tr.calls.get(1 + i) else {
+            r.inconclusive("read_card was not executed");
+            return;
+        };
+        let got = match &ct.result {
+            CallResult::Ok(OkVal::Bank) => Accept::Bank,
+            CallResult::Ok(OkVal::Membership(s)) => Accept::Membership(s.clone()),
+            CallResult::Err { class: ErrClass::NoCardPresented, .. } => Accept::Membership("<no card presented>".into()),
+            CallResult::Err { .. } => Accept::Error,
+            other => Accept::Membership(format!("<{}>", other.short())),
+        };
+        if accepted.contains(&Accept::Error) {
+            r.count("unreadable_presentations_in_a_sequence", 1);
+        }
+        if !accepted.contains(&got) {
+            let mut c = case_json(&sc, &tr);
+            c["cards"] = json!(cards.iter().map(|c| format!("{c:?}")).collect::<Vec<_>>());
+            c["presentation"] = json!(i);
+            c["accepted_results"] = json!(format!("{accepted:?}"));
+            r.violation("C18: a presentation in a sequence of different cards is not classified from its own status information", &format!("presentation {i} of {n}: uid {:?}, application list {:?}, card data present: {}: got {got:?}, accepted {accepted:?}", card.uid, card.subs, !card.no_tlv), c);
+            return;
+        }
+    }
 }
 
 fn random_card(rng: &mut Rng) -> CardData {
